@@ -45,6 +45,9 @@ HEADER_SHAPES = {
     "security-placeholder": [{"sec": [{"token": []}]}],
     "security-timestamp": [{"other": "{urn:x}Custom"}, {"sec": [{"ts": "existing"}]}],
     "security-other-then-token": [{"sec": [{"other": "{urn:y}BinaryToken"}, {"token": []}]}],
+    # a header entry that is merely *called* Security, in another namespace (an application header, a pre-OASIS draft)
+    "foreign-security-entry": [{"other": "{urn:app:headers}Security"}],
+    "foreign-security-and-real": [{"other": "{http://schemas.xmlsoap.org/ws/2002/04/secext}Security"}, {"sec": []}],
 }
 
 
@@ -156,7 +159,8 @@ def enc(x):
 
 
 USERNAMES = ["scott", "üser 中", ""]
-PASSWORDS = ["secret", "pässwörd \U0001F511", "", b"\x00\xffbytes", None]
+PASSWORDS = ["secret", "pässwörd \U0001F511", "", b"\x00\xffbytes", None,
+             "pa\u0308ss e\u0301 \u212b \u2126"]      # not in NFC form: the secret is the code points as configured
 NONCES = [None, "", "fixed-nonce-1", "nöncé"]
 CREATED = [None, datetime.datetime(2024, 2, 29, 23, 59, 59, 999999), datetime.datetime(2000, 1, 1, 0, 0, 0)]
 
